@@ -400,6 +400,19 @@ def flushRound : List Ev :=
 /-- the event order of one `localReplicator.Replica` -/
 def applyRound : List Ev := [.applyBegin, .applyTake, .applyAcquire, .applyWrite, .applyCommit]
 
+/-- `dataFamily.Close`: a pending immutable memory database (a failed earlier flush) is flushed and
+acknowledged first, then the mutable one is switched, flushed and acknowledged -/
+def closeEvs : List Ev := [.dataCommit, .ackCallback, .freeze, .dataCommit, .ackCallback]
+
+/-- graceful shutdown, `engine.Close` -> `database.Close`: metadata flush, `shard.FlushIndex`, then
+`shard.Close` (index flush once more, `segment.Close` -> `dataFamily.Close`) -/
+def shutdownRound : List Ev :=
+  [.metaPrepare, .metaFlushMetric, .metaFlushTagv, .indexPrepare, .indexFlush, .indexPrepare, .indexFlush] ++ closeEvs
+
+/-- a flush round whose index flush FAILED right after the prepare (a table file could not be
+created): `flushShard` returns, no family is flushed -/
+def failedIndexRound : List Ev := [.metaPrepare, .metaFlushMetric, .metaFlushTagv, .indexPrepare]
+
 /-! ### node level: one lane per leader
 
 `dataFamily.seq` / `persistSeq` / the manifest's sequences are maps leader -> sequence, and every
